@@ -39,6 +39,10 @@
 //! 3. `cast-decimal-to-int` — try_build's simplifier pass "unwraps" the truncating cast Decimal -> Int
 //!    (`CAST(d AS INT) >= -1` -> `d >= -1.00`), pruning a container whose max is -1.50.
 //! 4. `try-cast-is-not-distinct-from-null` — `TRY_CAST(c AS T) IS NOT DISTINCT FROM NULL` -> `c_null_count > 0`.
+//! Status after the fix series in /repo: 2, 3, 4 are `fixed` (their cases are plain regressions and pass, the shapes are
+//! back in play); 1 stays open. `known_signature` collects every matching signature and answers an OPEN one first
+//! (`pick_signature`), so a fixed signature can never shadow an open finding (regression
+//! `neg-of-int-min-shadowed-by-fixed-signature.json`: `-c1 < lit AND .. CAST(-c1 AS Boolean) IS NOT NULL`).
 //! Also observed, not C22's subject (only labelled `simplifier-changed-row-truth`): PhysicalExprSimplifier turns
 //! `TRY_CAST(u8 AS Int8) != 2` into `u8 != 2` (NULL -> TRUE for 200).
 //!
@@ -1170,6 +1174,12 @@ impl Property for C22 {
 ///   column holds the type's MIN — nothing else about negations is excluded
 ///   (NegativeExpr wraps at row level, the pruning rewrite `-c op lit -> c op' -lit` assumes it does not).
 fn known_sig(case: &Case) -> Option<String> {
+    pick_signature("C22", all_sigs(case))
+}
+
+/// every signature the case matches
+fn all_sigs(case: &Case) -> Vec<String> {
+    let mut out: Vec<String> = vec![];
     fn terms<'a>(p: &'a P, out: &mut Vec<&'a T>) {
         match p {
             P::Cmp { t, .. } | P::IsNull { t, .. } => out.push(t),
@@ -1182,7 +1192,7 @@ fn known_sig(case: &Case) -> Option<String> {
         }
     }
     if case.cols.is_empty() || case.cols.len() > 3 {
-        return None;
+        return out;
     }
     fn tcn(p: &P, cols: &[Ty]) -> bool {
         match p {
@@ -1201,7 +1211,7 @@ fn known_sig(case: &Case) -> Option<String> {
         }
     }
     if tcn(&case.pred, &case.cols) {
-        return Some("try-cast-is-not-distinct-from-null".into());
+        out.push("try-cast-is-not-distinct-from-null".into());
     }
     let mut ts = vec![];
     terms(&case.pred, &mut ts);
@@ -1211,10 +1221,10 @@ fn known_sig(case: &Case) -> Option<String> {
             let (_, ty) = rs.col(*c);
             let targets = ty.cast_targets();
             if !targets.is_empty() && targets[pick_index(*to, targets.len())] == Ty::Bool && ty != Ty::Bool {
-                return Some("cast-numeric-to-bool".into());
+                out.push("cast-numeric-to-bool".into());
             }
             if !targets.is_empty() && ty == Ty::Dec92 && targets[pick_index(*to, targets.len())].is_int() {
-                return Some("cast-decimal-to-int".into());
+                out.push("cast-decimal-to-int".into());
             }
         }
     }
@@ -1225,10 +1235,10 @@ fn known_sig(case: &Case) -> Option<String> {
                 let targets = ty.cast_targets();
                 let to = targets[pick_index(*to, targets.len())];
                 if to == Ty::Bool {
-                    return Some("cast-numeric-to-bool".into());
+                    out.push("cast-numeric-to-bool".into());
                 }
                 if ty == Ty::Dec92 && to.is_int() {
-                    return Some("cast-decimal-to-int".into());
+                    out.push("cast-decimal-to-int".into());
                 }
             }
         }
@@ -1241,7 +1251,7 @@ fn known_sig(case: &Case) -> Option<String> {
                     for cont in &case.containers {
                         for r in &cont.rows {
                             if !r[ci].null && pool_val(ty, r[ci].v) == Raw::I(lo) {
-                                return Some("neg-of-int-min".into());
+                                out.push("neg-of-int-min".into());
                             }
                         }
                     }
@@ -1249,7 +1259,43 @@ fn known_sig(case: &Case) -> Option<String> {
             }
         }
     }
-    None
+    out.dedup();
+    out
+}
+
+
+/// Signatures of the OPEN entries of /verif/known_findings.json for one property (read once). A case can match
+/// several signatures; `known_signature` must answer an open one if any matches, otherwise a fixed signature
+/// would shadow an open finding (fixed entries suppress nothing).
+pub fn open_signatures(property: &str) -> &'static std::collections::HashSet<String> {
+    use std::collections::{HashMap, HashSet};
+    use std::sync::{Mutex, OnceLock};
+    static CACHE: OnceLock<Mutex<HashMap<String, &'static HashSet<String>>>> = OnceLock::new();
+    let mut g = CACHE.get_or_init(|| Mutex::new(HashMap::new())).lock().unwrap_or_else(|e| e.into_inner());
+    if let Some(s) = g.get(property) {
+        return s;
+    }
+    let mut set = HashSet::new();
+    if let Ok(text) = std::fs::read_to_string(verif_root().join("known_findings.json")) {
+        if let Ok(v) = serde_json::from_str::<serde_json::Value>(&text) {
+            for e in v.get("findings").and_then(|f| f.as_array()).cloned().unwrap_or_default() {
+                if e.get("property").and_then(|x| x.as_str()) == Some(property) && e.get("status").and_then(|x| x.as_str()) == Some("open") {
+                    if let Some(s) = e.get("signature").and_then(|x| x.as_str()) {
+                        set.insert(s.to_string());
+                    }
+                }
+            }
+        }
+    }
+    let leaked: &'static HashSet<String> = Box::leak(Box::new(set));
+    g.insert(property.to_string(), leaked);
+    leaked
+}
+
+/// first open signature among the candidates, else the first candidate
+pub fn pick_signature(property: &str, cands: Vec<String>) -> Option<String> {
+    let open = open_signatures(property);
+    cands.iter().find(|c| open.contains(*c)).cloned().or_else(|| cands.into_iter().next())
 }
 
 fn describe(case: &Case, rp: &RP, rows: &[Vec<Row>]) -> String {
